@@ -95,11 +95,13 @@ func c02Setters(c *Ctx) {
 				continue
 			}
 			n++
+			// the first thing that happens to the field is a store of a value that does not depend on
+			// its previous content (nil, a fresh slice, or something computed from the argument only)
 			reset := false
+			old := field(paramNamed(fn, 0), m.fld)
 			for _, e := range p.Events {
 				if e.Kind == "store" && e.Name == m.fld && len(e.Args) == 2 {
-					v := e.Args[1]
-					reset = v.Op == "nil" || v.Op == "lit" && len(v.Args) == 0 || v.Op == "make"
+					reset = !e.Args[1].Contains(old.Key())
 					break
 				}
 				if e.Kind == "call" && strings.HasPrefix(e.Name, ".Append") {
